@@ -1,8 +1,9 @@
 (* Correspondence cases of C17 (wire format of Num/Decode.v):
    0 : RealFloat.round   x max_p min_n rm k rb   -> result (rf*flags), raw encoding
-   1 : Context.round     ctx x n rb              -> result (fl*flags), canonical value + inexact/overflow *)
+   1 : Context.round     ctx x n rb              -> result (fl*flags), canonical value + inexact/overflow
+   2 : ops.<op>          op ctx args rb          -> as C02 *)
 From Coq Require Import ZArith List Bool.
-From FpyV Require Import Num.RealFloat Num.Float Num.CtxDef Num.Ctx Num.Out Num.Decode Cases.C01Cases.
+From FpyV Require Import Num.RealFloat Num.Float Num.CtxDef Num.Ctx Num.Arith Num.Out Num.Decode Cases.C01Cases Cases.C02Cases.
 Import ListNotations.
 Open Scope Z_scope.
 
@@ -15,6 +16,11 @@ Definition check_line17 (l : list Z) : bool :=
   | 1 :: l =>
       match (c <- d_ctx ;; x <- d_fl ;; n <- d_opt d_z ;; rb <- d_z ;; o <- d_rfl_result ;;
              d_ret (rfl_eqb (ctx_round c x n rb) o)) l with
+      | Some (b, []) => b | _ => false end
+  | 2 :: l =>
+      (* an arithmetic operation through the engines under a stochastic context: op ctx nargs args rb obs *)
+      match (op <- d_aop ;; c <- d_ctx ;; n <- d_z ;; args <- d_list d_fl (Z.to_nat n) ;; rb <- d_z ;; o <- d_obs ;;
+             d_ret (obs_agrees (arith_rb op c args rb) o)) l with
       | Some (b, []) => b | _ => false end
   | _ => false
   end.
